@@ -156,6 +156,28 @@ def build_script(seed, size=1.0, micro=False):
         par.op("expand", V.s("sha256"), V.b(b"x"), V.b(b"y"), V.n(8161 + rng.randrange(100)))
         par.op("g1.wnaf_exp", tab1, dig2)        # digits recoded for another window: may index past the table
         par.op("h2f", V.s("fq"), V.s("sha512"), V.b(b"m"), V.b(b"t"), V.n(300))
+    # hostile decodings (on the curve, outside the subgroup; off the curve) - each one several times: a memo keyed on
+    # the input must not change the answer of a repeated call
+    for g_, c_, gpn in ((1, E1, "g1"), (2, E2, "g2")):
+        so = G.small_order_points(g_, rng)
+        for Pn in [so[min(so)], c_.random_point(rng)]:
+            for comp in (True, False):
+                bts = V.b(EN.encode(g_, Pn, comp))
+                for _ in range(3):
+                    par.op(gpn + (".dec_c" if comp else ".dec_u"), bts)
+                par.op("deser", V.s(gpn), bts, V.t(comp), V.n(0), V.n(-1))
+                par.op("deser", V.s(gpn + "a"), bts, V.t(comp), V.n(0), V.n(-1))
+                par.op(gpn + (".dec_c" if comp else ".dec_u"), bts)
+    # memoisation probe: a sample of the operations above is issued a second time with identical operands
+    for line in rng.sample(par.lines, min(40, len(par.lines))):
+        i = par.next
+        par.next += 1
+        par.lines.append("%d %s" % (i, line.split(" ", 1)[1]))
+    # contention block: many threads prepare the same few G2 points and run Miller loops at the same time (a process-wide
+    # cache or lazily built table behind prepare() / miller_loop() would be hit here)
+    for _ in range(n(24)):
+        i, j = rng.randrange(3), rng.randrange(2)
+        par.op(rng.choice(["pairing", "pair_with_12"]), A1[i], A2[j])
     for _ in range(n(5)):
         i, j = rng.randrange(3), rng.randrange(3)
         par.op("pairing", A1[i], A2[j])
@@ -343,7 +365,7 @@ def main(tier, seed, procs):
         miri_pump(mst)
         pre, par = build_script(seed, 1.0 if q else 2.0)
         res.samples.append(dict(parallel_ops=len(par), prelude_ops=len(pre), sample_op=par[7][:200], sample_op2=par[-3][:200]))
-        rounds = 3 if q else 50
+        rounds = 4 if q else 50
         # ---- (1)+(2) release build, threads with probes and seeded yields
         rel_base = None
         for k in range(1 if q else 4):
